@@ -26,9 +26,18 @@ Runs == { <<a, a>> : a \in 1..18 }
                <<17, 13>>, <<18, 13>>, <<13, 17>>, <<6, 4>>, <<4, 6>>, <<8, 5>> }
 X == Id(<<120>>)  Y == Id(<<121>>)
 OpAt(r, j) == BinToks[IF j % 2 = 1 THEN r[1] ELSE r[2]]          \* j-th operator of the run
-RECURSIVE Chain(_, _)  RECURSIVE Nested(_, _)
-Chain(r, n)  == IF n = 1 THEN <<X>> ELSE Chain(r, n - 1) \o <<OpAt(r, n - 1), Y>>
-Nested(r, n) == IF n = 1 THEN <<X>> ELSE <<LP>> \o Nested(r, n - 1) \o <<OpAt(r, n - 1), Y, RP>>
+RECURSIVE Chain(_, _, _)  RECURSIVE Nested(_, _, _)
+\* y: the right operands -- the field y, or a literal
+Chain(r, n, y)  == IF n = 1 THEN <<X>> ELSE Chain(r, n - 1, y) \o <<OpAt(r, n - 1), y>>
+Nested(r, n, y) == IF n = 1 THEN <<X>> ELSE <<LP>> \o Nested(r, n - 1, y) \o <<OpAt(r, n - 1), y, RP>>
+\* the same computation sequenced by let: each intermediate result is bound
+\* before it is used (no regrouping, folding or re-association can cross a let)
+RECURSIVE Steps(_, _, _, _)
+TV(i) == VarT(<<36, 116>> \o NatCps(i))                       \* $t1, $t2 ...
+Steps(r, n, y, i) == IF i >= n THEN <<TV(n - 1)>>
+                     ELSE <<LetT, TV(i), AssignT>> \o (IF i = 1 THEN <<X>> ELSE <<TV(i - 1)>>) \o <<OpAt(r, i), y, InT>> \o Steps(r, n, y, i + 1)
+Sequenced(r, n, y) == IF n = 1 THEN <<X>> ELSE Steps(r, n, y, 1)
+Lit4 == Json(<<96,52,96>>)  Lit10 == Json(<<96,49,48,96>>)
 
 D(neg, ds, e) == NumV(Norm(neg, ds, e))
 Nines34 == [i \in 1..34 |-> 9]
@@ -42,7 +51,11 @@ Exotic == <<
   [doc |-> DocXY(D(FALSE, Nines34, 0), D(FALSE, <<4>>, 0 - 1)), carriers |-> <<"decimal", "decimal">>],
   [doc |-> DocXY(D(FALSE, <<1>>, 0), D(FALSE, <<1, 0, 0, 0, 0, 0, 0, 0, 0, 0, 0, 0, 0, 0, 0, 0, 0, 0, 0, 0, 0, 0, 0, 0, 0, 0, 0, 0, 0, 0, 0, 0, 0, 7>>, 0 - 33)), carriers |-> <<"json", "json">>],
   [doc |-> DocXY(D(FALSE, <<1>>, 300), D(FALSE, <<1>>, 10)), carriers |-> <<"float64", "float64">>],
-  [doc |-> DocXY(D(TRUE, <<7>>, 0), D(FALSE, <<3>>, 0)), carriers |-> <<"float64", "int64">>] >>
+  [doc |-> DocXY(D(TRUE, <<7>>, 0), D(FALSE, <<3>>, 0)), carriers |-> <<"float64", "int64">>],
+  [doc |-> DocXY([t |-> "num", big |-> "92345678901234567890123456789012340"], D(FALSE, <<4>>, 0)), carriers |-> <<"json", "json">>],
+  [doc |-> DocXY(D(FALSE, <<2>>, 0 - 1), D(FALSE, <<1, 0>>, 0)), carriers |-> <<"floatany", "json">>],
+  [doc |-> DocXY(D(FALSE, <<3>>, 0 - 1), D(FALSE, <<1, 2>>, 0)), carriers |-> <<"floatany", "json">>],
+  [doc |-> DocXY(D(FALSE, Nines34, 0 - 1), D(FALSE, <<4>>, 0)), carriers |-> <<"json", "json">>] >>
 \* small documents: Eval decides the outcome (additive and looser levels only:
 \* a product of 64 factors leaves the model's 32-bit integers)
 Small == << Obj(<<Mem(<<120>>, JInt(7)), Mem(<<121>>, JInt(2))>>),
@@ -62,13 +75,16 @@ Spec == Init /\ [][Next]_<<bucket, idx>>
 Mult(r) == \E j \in 1..2 : r[j] >= 13
 Check == idx > 0 =>
   LET r  == RunSeq[bucket]   n == LenSeq[idx]
-      ts == Chain(r, n)      fp == Nested(r, n)
+      ts == Chain(r, n, Y)      fp == Nested(r, n, Y)   sq == Sequenced(r, n, Y)
       c1 == Compile(ts, DefaultMode)  c2 == Compile(fp, DefaultMode)
-      base == [p |-> Prop, kind |-> "pair", strict |-> TRUE, expr |-> Render(ts), expr2 |-> Render(fp)]
+      base(y) == [p |-> Prop, kind |-> "pair", strict |-> TRUE, expr |-> Render(Chain(r, n, y)), expr2 |-> Render(Nested(r, n, y)),
+                  expr3 |-> Render(Sequenced(r, n, y))]
       smalls == IF Mult(r) THEN <<OneDoc>> ELSE Small
-      cases == { base @@ [doc |-> Exotic[i].doc, carriers |-> Exotic[i].carriers, adm |-> {Open}] : i \in 1..Len(Exotic) }
-               \cup { base @@ [doc |-> smalls[i], carriers |-> <<>>, adm |-> Admissible(ts, smalls[i])] : i \in 1..Len(smalls) }
+      cases == { base(y) @@ [doc |-> Exotic[i].doc, carriers |-> Exotic[i].carriers, adm |-> {Open}] : i \in 1..Len(Exotic), y \in {Y, Lit4, Lit10} }
+               \cup { base(Y) @@ [doc |-> smalls[i], carriers |-> <<>>, adm |-> Admissible(ts, smalls[i])] : i \in 1..Len(smalls) }
   IN /\ Emit => \A c \in cases : PrintT("CASE " \o ToJson(c))
      /\ Named(c1.ok /\ c2.ok /\ c1.n = c2.n, "ChainLeftNested")
      /\ Named(\A i \in 1..Len(smalls) : Admissible(ts, smalls[i]) = Admissible(fp, smalls[i]), "SameOutcomeInModel")
+     \* sequencing by let is the same computation (checked where Eval is cheap: up to 9 operands)
+     /\ Named(n > 9 \/ \A i \in 1..Len(smalls) : Admissible(ts, smalls[i]) = Admissible(sq, smalls[i]), "SequencedByLetIsTheSame")
 =============================================================================
